@@ -49,6 +49,7 @@ BASE = [
     P('Load', params=[par('path'), par('fmt', default='csv', dpdv=True), par('verbose', default=False, ignore=True)]),
     P('Clean', group='prep', params=[par('thr'), par('opts', default=None)], inputs=[inp('Load')]),
     P('Model', params=[par('lr'), par('layers')], inputs=[inp('prep:clean', 'name'), inp('Load')], data='dir'),
+    P('Plain', inputs=[inp('Load')]),
 ]
 
 
@@ -128,10 +129,11 @@ def make_harness(case, tier):
             B_ = mk(permuted(BASE, lambda n: list(range(n))[::-1]), dict(vals))
         elif sc == 'task-order':
             A = mk(BASE, dict(vals))
-            B_ = mk(BASE, dict(vals), order=[2, 0, 1])
+            B_ = mk(BASE, dict(vals), order=[2, 0, 3, 1])
         elif sc == 'mapkey-order':
-            o1 = {'alpha': I('m0'), 'beta': S('m1'), 'gamma': [B('m2')]}
-            o2 = {k: o1[k] for k in ('gamma', 'alpha', 'beta')}
+            n1, n2 = I('m3'), S('m4')
+            o1 = {'alpha': I('m0'), 'beta': S('m1'), 'gamma': [B('m2'), {'p': n1, 'q': n2}], 'nested': {'x': n1, 'y': {'u': n2, 'v': n1}}}
+            o2 = {'gamma': [o1['gamma'][0], {'q': n2, 'p': n1}], 'nested': {'y': {'v': n1, 'u': n2}, 'x': n1}, 'alpha': o1['alpha'], 'beta': o1['beta']}
             A = mk(BASE, dict(vals, opts=o1))
             B_ = mk(BASE, dict(vals, opts=o2))
             d1 = {k: vals[k] for k in ('layers', 'lr', 'thr', 'path', 'fmt')}
@@ -163,6 +165,7 @@ def make_harness(case, tier):
             B_ = mk(BASE, dict(vals, verbose=B('v2')))
             spec2 = [dict(t) for t in BASE]
             spec2[1] = dict(spec2[1], params=spec2[1]['params'] + [par('debug', default=0, ignore=True)])
+            spec2[3] = dict(spec2[3], params=[par('debug', default=0, ignore=True)])      # a task without any other parameter
             C_ = mk(spec2, dict(vals, debug=I('dbg')), name='withdebug')
             for t in A.tasks:
                 ctx.check(keys_equal(A.tasks[t].name_for_persistence, C_.tasks[t].name_for_persistence), 'same-key',
@@ -174,6 +177,7 @@ def make_harness(case, tier):
             B_ = mk(BASE, dict(v, fmt='csv'))
             spec2 = [dict(t) for t in BASE]
             spec2[2] = dict(spec2[2], params=spec2[2]['params'] + [par('seed', default=42, dpdv=True)])
+            spec2[3] = dict(spec2[3], params=[par('seed', default=42, dpdv=True)])        # a task without any other parameter
             C_ = mk(spec2, dict(v), name='newparam')
             D_ = mk(spec2, dict(v, seed=42), name='newparam-explicit')
             for t in A.tasks:
